@@ -1,5 +1,6 @@
 import AnyTLS.Gen
 import AnyTLS.Model.Dest
+import AnyTLS.Model.UdpRelay
 import AnyTLS.Drv.Util
 
 namespace AnyTLS.Drv
@@ -66,6 +67,16 @@ def destOp (toks : List String) : String :=
       match encodeDgram mx d with
       | some b => "ok " ++ hexOfBytes b
       | none => "err"
+    | none => "bad-op"
+  | "udpback" :: dgrams =>
+    -- the server's udp → stream loop (its slice regenerated from the source): the chunks submitted for these datagrams
+    match allSome (dgrams.map bytesOfHex) with
+    | some ds =>
+      match Gen.udpSites.find? (fun s => s.dir == .toStream && s.file == "src/server/udp_proxy.rs") with
+      | some site =>
+        let cs := UdpRelay.toStream Gen.udpMaxServer site.slice (zeros Gen.udpMaxServer) ds
+        "[" ++ joinSep "," (cs.map hexOfBytes) ++ "]"
+      | none => "no-site"
     | none => "bad-op"
   | "udprelay" :: chunks =>
     -- the server's relay loop: the complete datagrams of the byte stream, in order (pauses do not matter)
